@@ -4,6 +4,7 @@ import (
 	"context"
 	"errors"
 	"fmt"
+	"strings"
 	"sync"
 	"time"
 
@@ -588,7 +589,22 @@ func (i *Interface) Purge(ctx context.Context, q *query.Query) (int, error) {
 		return 0, ErrReadOnly
 	}
 
-	return db.Purge(ctx, q, i.options.Local, i.options.Internal)
+	if i.cache == nil {
+		return db.Purge(ctx, q, i.options.Local, i.options.Internal)
+	}
+
+	// The purge works on the storage: write out delayed writes first, so that
+	// it sees them, and afterwards drop all cached records that may have been
+	// purged, so that they are not served from the cache anymore.
+	i.FlushCache()
+	n, err := db.Purge(ctx, q, i.options.Local, i.options.Internal)
+	cacheKeyPrefix := q.DatabaseName() + ":" + q.DatabaseKeyPrefix()
+	for _, cacheKey := range i.cache.Keys(false) {
+		if key, ok := cacheKey.(string); ok && strings.HasPrefix(key, cacheKeyPrefix) {
+			i.cache.Remove(key)
+		}
+	}
+	return n, err
 }
 
 // Subscribe subscribes to updates matching the given query.
